@@ -8,6 +8,7 @@ The conjuncts that `wfb` lacks for being an inductive invariant (`Proofs/DlIndCe
   * `fenceOkB`  the header ending where a fencepost starts is a fencepost or a record chunk
   * `tailOkB`   in a non-head segment every header that is neither fencepost nor record chunk ends at
                 least `top_foot_size` bytes before the segment end
+  * `headOkB`   the first header of a segment is not a fencepost
 
 `Proofs/DlInvCheck.lean` proves `invB hs = true → Inv hs`.
 -/
@@ -27,8 +28,12 @@ def tailOkB (s : St) : Bool :=
   s.segs.all fun g => decide (g.recAt = 0) || s.h.ents.all fun e =>
     !inSeg g e || decide (e.size = 8) || isRecord s.segs e || decide (e.addr + e.size + 80 ≤ g.base + g.size)
 
+def headOkB (s : St) : Bool :=
+  s.segs.all fun g => s.h.ents.all fun e => !(decide (e.addr = g.base)) || !(decide (e.size = 8))
+
 def invParts (hs : Hist) : List (String × Bool) :=
-  wfParts hs ++ [("recsOk", recsOkB hs.st), ("fenceOk", fenceOkB hs.st), ("tailOk", tailOkB hs.st)]
+  wfParts hs ++ [("recsOk", recsOkB hs.st), ("fenceOk", fenceOkB hs.st), ("tailOk", tailOkB hs.st),
+    ("headOk", headOkB hs.st)]
 
 def invB (hs : Hist) : Bool := (invParts hs).all (·.2)
 
